@@ -328,6 +328,7 @@ Theorem C05_tie_init : forall c e user st fr q out,
   = Some (ONext, [], mkI (set_dbg st (s_dbg (init c))) fr false out).
 Proof. exact tie_init. Qed.
 
+(** PIN (no interpretation): the methods CustomizedPdb defines besides __init__; the translator refuses any other one *)
 Theorem C05_tie_overrides :
   forallb (fun x => existsb (String.eqb x) ["_cmdloop"; "cmdloop"; "set_continue"]) custom_overrides = true
   /\ existsb (String.eqb "set_continue") custom_overrides = true
@@ -364,9 +365,11 @@ Theorem C05_tie_lambda_rejected : forall c e s,
   e_lam e = true -> exists s1, irejected filter_classes register_prog global_trace_prog c e s = Some (true, s1).
 Proof. exact tie_lambda_rejected. Qed.
 
-(** WithContext._local_trace keeps the closure on the frame iff the wrapped function returned non-None;
-    sys_trace installs threading.settrace only under `if thread:` *)
-Theorem C05_tie_local_trace : forall r, wexec FUEL local_trace_prog r = Some r.
+(** WithContext._local_trace, called with a live next_trace: `assert next_trace` holds and the closure stays on the
+    frame iff the wrapped function returned non-None.
+    C05_tie_sys_trace is a PIN: the translator checks the shape of sys_trace (threading.settrace only under `if thread:`)
+    and of its one call in runner.py (thread=run_arg.trace_threads) and emits `true`; nothing is interpreted. *)
+Theorem C05_tie_local_trace : forall r, wexec FUEL local_trace_prog true r = Some r.
 Proof. exact tie_local_trace. Qed.
 
 Theorem C05_tie_sys_trace : sys_trace_thread_guarded = true.
